@@ -386,3 +386,13 @@ CLAIMED.update({
          "note": STD_NOTE + ORDER_NOTE,
          "technique": "static analysis: typed evaluation of the range reduction on boundary values (K6), argument/bound agreement and dominating positivity guards at call sites (K8/K4)"},
 })
+CLAIMED.update({
+ "C38": {"level": "other",
+         "text": "evdns_getaddrinfo evaluated from its extracted CFG over (base given/default/none, AI_NUMERICHOST, literal/NULL-node outcome, hosts-file outcome, cache enabled/outcome, "
+                 "allocation failure, family hint, which queries could be started): sources consulted in the documented order (numeric shortcut; literal/NULL node never reaches a "
+                 "query; hosts-file hit answers; cache unless disabled; then queries — A iff family != PF_INET6, AAAA iff family != PF_INET), the user callback runs exactly once when "
+                 "NULL is returned and never when a handle is returned, with the documented error class; every address copied from the hosts file or the cache is stamped with the "
+                 "request's port on every path before it is appended. Declined: the returned address sets, canonical names and TTL-bounded cache contents as data.",
+         "note": STD_NOTE + ORDER_NOTE,
+         "technique": "static analysis: evaluation of the extracted resolver front end over its finite decision domain (K6/K3), must-pass-through between copy and append (K3)"},
+})
